@@ -34,7 +34,7 @@ def strategy(draw, tier="quick"):
     evs = []
     for _ in range(n):
         us, off = draw(gen.stamps())
-        evs.append({"us": us, "off": off, "dur_us": draw(gen.durations_us()), "data": draw(gen.json_data(8))})
+        evs.append({"us": us, "off": off, "dur_us": draw(gen.durations_us()), "data": draw(gen.json_data(8, surrogates=True))})
     return {
         "backend": draw(st.sampled_from(stores.BACKENDS)),
         "events": evs,
